@@ -24,6 +24,8 @@ for d in sorted(glob.glob(V + "/seeded/*/")):
             out[p] = dict(rc=r.returncode, violation=v[0] if v else None, wall=round(time.time() - t, 1))
     finally:
         subprocess.run(["git", "-C", "/repo", "checkout", "--", "."], check=True)
+        # put the regenerated data files back in the state of the unchanged tree
+        subprocess.run(["/venv/bin/python", "-c", "from harness import generate; generate.run(sorted(generate.GENERATORS))"], cwd=V)
     res[sid] = out
     print(sid, out, flush=True)
 json.dump(res, open(V + "/out/seed_results.json", "w"), indent=1)
